@@ -21,7 +21,7 @@ def _small_buffers(a: socket.socket, b: socket.socket) -> None:
 
 
 def _asyncio_transport(adapter: Any) -> asyncio.Transport:
-    return getattr(adapter, "_AsyncioTransportStreamSocketAdapter__transport")
+    return harness.asyncio_transport_of(adapter)
 
 
 async def _drain_peer(peer: socket.socket, want: int, budget_s: float = 20.0) -> int:
